@@ -204,7 +204,7 @@ Fixpoint ssort (fuel : nat) (l : heap) : heap :=
         let mid := hget l5 store in
         let right := skipn (S store) l5 in
         let left' := if (1 <? store)%nat then ssort f left else left in
-        let right' := if (store * 2 <? size)%nat then ssort f right else right in   (* sic: pivot_idx * 2 < size *)
+        let right' := if (store + 2 <? size)%nat then ssort f right else right in   (* pivot_idx + 2 < size *)
         left' ++ mid :: right'
   end.
 
